@@ -1,6 +1,6 @@
 (* Wire entry points of the C13 model (adaptive driver, error estimate, point counting). *)
 From Coq Require Import ZArith List Bool QArith Qcanon.
-From SG Require Import Base.Sx Base.QcUtil Model.Driver.
+From SG Require Import Base.Sx Base.QcUtil Model.Driver Model.FunCache Model.DriverCount.
 Import ListNotations.
 Open Scope Z_scope.
 
@@ -81,6 +81,19 @@ Definition of_limits (l : limits) : sx :=
 Definition of_leg_result (r : option (nat * dstate)) : sx :=
   match r with Some (p, d) => Lv [Zv (Z.of_nat p); of_dstate d true] | None => Lv [Zv (-1)] end.
 
+Fixpoint qpoint (l : list Z) : FunCache.point :=
+  match l with
+  | n :: d :: r => Q2Qc (n # Z.to_pos d) :: qpoint r
+  | _ => []
+  end.
+Definition get_dev (s : sx) : option dev :=
+  match s with
+  | Lv [Zv 0] => Some DvPerform
+  | Lv [Zv 1; b] => match get_LLZ b with Some ps => Some (DvEval [OBatch (map qpoint ps)]) | None => None end
+  | Lv [Zv 2; Zv b] => Some (DvRestart (negb (b =? 0)))
+  | _ => None
+  end.
+
 (* sub 0: ((tol min max obs) ...)            -> state after every call
    sub 1: (tol min max obs)                  -> DimAdaptiveCombi loop
    sub 2: (norm ref|() integral)             -> global error estimate     (ref = (r1 r2 ...) wrapped: ((r..)) or ())
@@ -140,6 +153,20 @@ Definition entry_C13 (sub : Z) (a : sx) : sx :=
           let lims := resolve_history true h in
           Lv [Lv (map of_limits lims); Lv (map of_leg_result (legs_prefixes (length lims) lims stream))]
       | _, _ => sx_err 7
+      end
+  | 8, Lv items =>
+      (* history of one object as cache events: (0) performSpatiallyAdaptiv | (1 batch) one evaluation with the points the integrand
+         was evaluated at (point = flat list num den num den ...) | (2 b) restart of recalculate_frequently (b = 1: cache emptied)
+         -> (well-formed?  counts an independent observer of the integrand reports after every evaluation) *)
+      match opt_all (map get_dev items) with
+      | Some h => Lv [sx_bool (wf_history h); Lv (map (fun n => Zv (Z.of_nat n)) (evaluated_counts [] h))]
+      | None => sx_err 8
+      end
+  | 9, Lv kvs =>
+      (* solutions_storage: ((count result) ...) in evaluation order -> the dict ((count result) ...) *)
+      match opt_all (map (fun x => match x with Lv [Zv k; r] => match get_LQc r with Some v => Some (k, v) | None => None end | _ => None end) kvs) with
+      | Some l => Lv (map (fun kv => Lv [Zv (fst kv); of_LQc (snd kv)]) (storage_after l []))
+      | None => sx_err 9
       end
   | _, _ => sx_err 0
   end.
